@@ -63,3 +63,12 @@ func init() {
 		NotCovered:  "idempotence of canonicalisation, equality of decoded references, classification correctness: all value-level inside jsonreference/net/url",
 	})
 }
+
+func init() {
+	registerProperty(&Property{
+		ID:    "C03",
+		Rules: []string{"visit", "containers", "ref-clear", "ref-store"},
+		Explanation: "Decides the per-site disciplines 'only cycle cut-points remain' rests on. visit: every access path from Schema to a nested Schema (enumerated from the types, so a new schema-bearing field adds an obligation) is passed to the schema expander and the dereferenced result stored back at the same path. containers: every holder of refable elements (Swagger, PathItem, Operation, Parameter, Response; positions enumerated from the types) is handed to the matching expander, and by-value copies are written back. ref-clear (go/cfg must-analysis): every path from a completed dereference to a successful return stores the zero Ref into the holder. ref-store: every other store into a schema's Ref is a rewrite of a normalised reference against the root context (basePath, rootID) - or the normalised reference itself under AbsoluteCircularRef - and is control-dependent on isCircular having returned true, on skip-schemas mode, or on the empty-root-ref guard.",
+		NotCovered:  "that a kept $ref actually resolves to a node on a cycle; that denormalizeRef/rebase compute the right relative form; determinism of the output beyond C06's rules",
+	})
+}
